@@ -1,11 +1,20 @@
 mod c03;
+mod c06;
 mod c15;
+mod tirgen;
 mod gal;
 mod rng;
 
 use std::collections::BTreeMap;
 use std::io::Write;
 use std::path::PathBuf;
+
+thread_local! {
+    pub static LAST_PANIC: std::cell::RefCell<String> = std::cell::RefCell::new(String::new());
+}
+pub fn last_panic() -> String {
+    LAST_PANIC.with(|p| p.borrow().clone())
+}
 
 pub struct Ctx {
     pub seed: u64,
@@ -48,7 +57,17 @@ fn main() {
         std::process::exit(2);
     }
     // panics of the implementation are caught per case; keep the default hook quiet
-    std::panic::set_hook(Box::new(|_| {}));
+    std::panic::set_hook(Box::new(|info| {
+        let loc = info.location().map(|l| format!("{}:{}", l.file(), l.line())).unwrap_or_default();
+        let msg = if let Some(s) = info.payload().downcast_ref::<&str>() {
+            s.to_string()
+        } else if let Some(s) = info.payload().downcast_ref::<String>() {
+            s.clone()
+        } else {
+            String::new()
+        };
+        LAST_PANIC.with(|p| *p.borrow_mut() = format!("{} @ {}", msg, loc));
+    }));
     let cmd = args[1].as_str();
     let id = args[2].clone();
     let mut ctx = Ctx {
@@ -86,6 +105,8 @@ fn main() {
         ("run", "C15") => c15::run(&mut ctx),
         ("run", "C03") => c03::run(&mut ctx, false),
         ("run", "C04") => c03::run(&mut ctx, true),
+        ("run", "C06") => c06::run(&mut ctx, false),
+        ("run", "C07") => c06::run(&mut ctx, true),
         ("extract", _) => {
             // translators: none registered yet
             return;
